@@ -338,62 +338,62 @@ fn pop_expired_n2() { check_pop_expired::<2>(); }
 #[kani::unwind(6)]
 fn pop_expired_n3() { check_pop_expired::<3>(); }
 
-//@ harness id=txseg.k.remove_cum.n0 kind=bounded props=C01,C06,C10 tier=quick timeout=600 bound="N_SEG==0" text="remove_up_to_ack, cumulative ACK (header without SACK), any ack_nr incl. ACKs of data never sent and stale ACKs: no panic, wf kept, exactly the acked prefix (plus delivered run) removed, snd_una/removed_offset/acked_bytes agree, retained suffix unchanged"
+//@ harness id=txseg.k.remove_cum.n0 kind=bounded props=C01,C06,C10,C09 tier=quick timeout=600 bound="N_SEG==0" text="remove_up_to_ack, cumulative ACK (header without SACK), any ack_nr incl. ACKs of data never sent and stale ACKs: no panic, wf kept, exactly the acked prefix (plus delivered run) removed, snd_una/removed_offset/acked_bytes agree, retained suffix unchanged"
 #[kani::proof]
 #[kani::unwind(3)]
 fn remove_cum_n0() { check_remove_cum::<0>(); }
 
-//@ harness id=txseg.k.remove_cum.n1 kind=bounded props=C01,C06,C10 tier=quick timeout=600 bound="N_SEG==1" text="remove_up_to_ack, cumulative ACK (header without SACK), any ack_nr incl. ACKs of data never sent and stale ACKs: no panic, wf kept, exactly the acked prefix (plus delivered run) removed, snd_una/removed_offset/acked_bytes agree, retained suffix unchanged"
+//@ harness id=txseg.k.remove_cum.n1 kind=bounded props=C01,C06,C10,C09 tier=quick timeout=600 bound="N_SEG==1" text="remove_up_to_ack, cumulative ACK (header without SACK), any ack_nr incl. ACKs of data never sent and stale ACKs: no panic, wf kept, exactly the acked prefix (plus delivered run) removed, snd_una/removed_offset/acked_bytes agree, retained suffix unchanged"
 #[kani::proof]
 #[kani::unwind(4)]
 fn remove_cum_n1() { check_remove_cum::<1>(); }
 
-//@ harness id=txseg.k.remove_cum.n2 kind=bounded props=C01,C06,C10 tier=quick timeout=600 bound="N_SEG==2" text="remove_up_to_ack, cumulative ACK (header without SACK), any ack_nr incl. ACKs of data never sent and stale ACKs: no panic, wf kept, exactly the acked prefix (plus delivered run) removed, snd_una/removed_offset/acked_bytes agree, retained suffix unchanged"
+//@ harness id=txseg.k.remove_cum.n2 kind=bounded props=C01,C06,C10,C09 tier=quick timeout=600 bound="N_SEG==2" text="remove_up_to_ack, cumulative ACK (header without SACK), any ack_nr incl. ACKs of data never sent and stale ACKs: no panic, wf kept, exactly the acked prefix (plus delivered run) removed, snd_una/removed_offset/acked_bytes agree, retained suffix unchanged"
 #[kani::proof]
 #[kani::unwind(5)]
 fn remove_cum_n2() { check_remove_cum::<2>(); }
 
-//@ harness id=txseg.k.remove_cum.n3 kind=bounded props=C01,C06,C10 tier=thorough timeout=1500 bound="N_SEG==3" text="remove_up_to_ack, cumulative ACK (header without SACK), any ack_nr incl. ACKs of data never sent and stale ACKs: no panic, wf kept, exactly the acked prefix (plus delivered run) removed, snd_una/removed_offset/acked_bytes agree, retained suffix unchanged"
+//@ harness id=txseg.k.remove_cum.n3 kind=bounded props=C01,C06,C10,C09 tier=thorough timeout=1500 bound="N_SEG==3" text="remove_up_to_ack, cumulative ACK (header without SACK), any ack_nr incl. ACKs of data never sent and stale ACKs: no panic, wf kept, exactly the acked prefix (plus delivered run) removed, snd_una/removed_offset/acked_bytes agree, retained suffix unchanged"
 #[kani::proof]
 #[kani::unwind(6)]
 fn remove_cum_n3() { check_remove_cum::<3>(); }
 
-//@ harness id=txseg.k.flight.n0 kind=bounded props=C05,C10 tier=quick timeout=600 bound="N_SEG==0" text="calc_flight_size(last_sent) == sum of payload sizes of undelivered segments with index <= last_sent - snd_una (0 when behind); <= total queued bytes; no panic for any last_sent"
+//@ harness id=txseg.k.flight.n0 kind=bounded props=C05,C10,C09 tier=quick timeout=600 bound="N_SEG==0" text="calc_flight_size(last_sent) == sum of payload sizes of undelivered segments with index <= last_sent - snd_una (0 when behind); <= total queued bytes; no panic for any last_sent"
 #[kani::proof]
 #[kani::unwind(3)]
 fn flight_n0() { check_flight::<0>(); }
 
-//@ harness id=txseg.k.flight.n1 kind=bounded props=C05,C10 tier=quick timeout=600 bound="N_SEG==1" text="calc_flight_size(last_sent) == sum of payload sizes of undelivered segments with index <= last_sent - snd_una (0 when behind); <= total queued bytes; no panic for any last_sent"
+//@ harness id=txseg.k.flight.n1 kind=bounded props=C05,C10,C09 tier=quick timeout=600 bound="N_SEG==1" text="calc_flight_size(last_sent) == sum of payload sizes of undelivered segments with index <= last_sent - snd_una (0 when behind); <= total queued bytes; no panic for any last_sent"
 #[kani::proof]
 #[kani::unwind(4)]
 fn flight_n1() { check_flight::<1>(); }
 
-//@ harness id=txseg.k.flight.n2 kind=bounded props=C05,C10 tier=quick timeout=600 bound="N_SEG==2" text="calc_flight_size(last_sent) == sum of payload sizes of undelivered segments with index <= last_sent - snd_una (0 when behind); <= total queued bytes; no panic for any last_sent"
+//@ harness id=txseg.k.flight.n2 kind=bounded props=C05,C10,C09 tier=quick timeout=600 bound="N_SEG==2" text="calc_flight_size(last_sent) == sum of payload sizes of undelivered segments with index <= last_sent - snd_una (0 when behind); <= total queued bytes; no panic for any last_sent"
 #[kani::proof]
 #[kani::unwind(5)]
 fn flight_n2() { check_flight::<2>(); }
 
-//@ harness id=txseg.k.flight.n3 kind=bounded props=C05,C10 tier=thorough timeout=1500 bound="N_SEG==3" text="calc_flight_size(last_sent) == sum of payload sizes of undelivered segments with index <= last_sent - snd_una (0 when behind); <= total queued bytes; no panic for any last_sent"
+//@ harness id=txseg.k.flight.n3 kind=bounded props=C05,C10,C09 tier=thorough timeout=1500 bound="N_SEG==3" text="calc_flight_size(last_sent) == sum of payload sizes of undelivered segments with index <= last_sent - snd_una (0 when behind); <= total queued bytes; no panic for any last_sent"
 #[kani::proof]
 #[kani::unwind(6)]
 fn flight_n3() { check_flight::<3>(); }
 
-//@ harness id=txseg.k.iter.n0 kind=bounded props=C01,C06,C10 tier=quick timeout=600 bound="N_SEG==0" text="iter_mut_for_sending(start): yields exactly the undelivered segments at index >= max(0, start - snd_una), in order, with seq_nr == snd_una + index and payload_offset == absolute offset - removed_offset == sum of earlier sizes; a delivered (acked) segment is never yielded; checked_sub().unwrap() never panics"
+//@ harness id=txseg.k.iter.n0 kind=bounded props=C01,C06,C10,C09 tier=quick timeout=600 bound="N_SEG==0" text="iter_mut_for_sending(start): yields exactly the undelivered segments at index >= max(0, start - snd_una), in order, with seq_nr == snd_una + index and payload_offset == absolute offset - removed_offset == sum of earlier sizes; a delivered (acked) segment is never yielded; checked_sub().unwrap() never panics"
 #[kani::proof]
 #[kani::unwind(3)]
 fn iter_n0() { check_iter::<0>(); }
 
-//@ harness id=txseg.k.iter.n1 kind=bounded props=C01,C06,C10 tier=quick timeout=600 bound="N_SEG==1" text="iter_mut_for_sending(start): yields exactly the undelivered segments at index >= max(0, start - snd_una), in order, with seq_nr == snd_una + index and payload_offset == absolute offset - removed_offset == sum of earlier sizes; a delivered (acked) segment is never yielded; checked_sub().unwrap() never panics"
+//@ harness id=txseg.k.iter.n1 kind=bounded props=C01,C06,C10,C09 tier=quick timeout=600 bound="N_SEG==1" text="iter_mut_for_sending(start): yields exactly the undelivered segments at index >= max(0, start - snd_una), in order, with seq_nr == snd_una + index and payload_offset == absolute offset - removed_offset == sum of earlier sizes; a delivered (acked) segment is never yielded; checked_sub().unwrap() never panics"
 #[kani::proof]
 #[kani::unwind(4)]
 fn iter_n1() { check_iter::<1>(); }
 
-//@ harness id=txseg.k.iter.n2 kind=bounded props=C01,C06,C10 tier=quick timeout=600 bound="N_SEG==2" text="iter_mut_for_sending(start): yields exactly the undelivered segments at index >= max(0, start - snd_una), in order, with seq_nr == snd_una + index and payload_offset == absolute offset - removed_offset == sum of earlier sizes; a delivered (acked) segment is never yielded; checked_sub().unwrap() never panics"
+//@ harness id=txseg.k.iter.n2 kind=bounded props=C01,C06,C10,C09 tier=quick timeout=600 bound="N_SEG==2" text="iter_mut_for_sending(start): yields exactly the undelivered segments at index >= max(0, start - snd_una), in order, with seq_nr == snd_una + index and payload_offset == absolute offset - removed_offset == sum of earlier sizes; a delivered (acked) segment is never yielded; checked_sub().unwrap() never panics"
 #[kani::proof]
 #[kani::unwind(5)]
 fn iter_n2() { check_iter::<2>(); }
 
-//@ harness id=txseg.k.iter.n3 kind=bounded props=C01,C06,C10 tier=thorough timeout=1500 bound="N_SEG==3" text="iter_mut_for_sending(start): yields exactly the undelivered segments at index >= max(0, start - snd_una), in order, with seq_nr == snd_una + index and payload_offset == absolute offset - removed_offset == sum of earlier sizes; a delivered (acked) segment is never yielded; checked_sub().unwrap() never panics"
+//@ harness id=txseg.k.iter.n3 kind=bounded props=C01,C06,C10,C09 tier=thorough timeout=1500 bound="N_SEG==3" text="iter_mut_for_sending(start): yields exactly the undelivered segments at index >= max(0, start - snd_una), in order, with seq_nr == snd_una + index and payload_offset == absolute offset - removed_offset == sum of earlier sizes; a delivered (acked) segment is never yielded; checked_sub().unwrap() never panics"
 #[kani::proof]
 #[kani::unwind(6)]
 fn iter_n3() { check_iter::<3>(); }
@@ -469,7 +469,7 @@ fn remove_sack_attempt() {
     }
 }
 
-//@ harness id=txseg.k.vacuity kind=vacuity props=C01,C06,C10,C14,C05 tier=quick timeout=300 text="the symbolic wf pre-state admits: a trailing probe, delivered segments behind the front, sequence numbers at the 16-bit wrap, non-uniform sizes"
+//@ harness id=txseg.k.vacuity kind=vacuity props=C01,C06,C10,C14,C05,C09 tier=quick timeout=300 text="the symbolic wf pre-state admits: a trailing probe, delivered segments behind the front, sequence numbers at the 16-bit wrap, non-uniform sizes"
 #[kani::proof]
 #[kani::unwind(5)]
 fn vacuity() {
